@@ -188,8 +188,18 @@ def reviewed_reasons():
     return {r["key"]: r for r in json.load(open(p))["rows"]}
 
 
+LIB_ERRORS = ("serde_json::Error", "serde_json::error::Error", "csv::Error", "csv::error::Error", "std::num::ParseIntError", "std::num::ParseFloatError", "semver::Error", "std::io::Error", "regex::Error")
+
+
 def r3(ctx, rep):
     rep.rule("C13.R3", "every error reason is non-empty text", floor=45)
+    mir_refs = {}
+    for fid_, f_ in ctx.cg.fns.items():
+        for r_ in f_["refs"]:
+            if r_["kind"] == "call" and r_.get("file"):
+                mir_refs.setdefault((r_["file"], r_["l"]), []).append(r_)
+                if r_.get("ml", -1) > 0:
+                    mir_refs.setdefault((r_["file"], r_["ml"]), []).append(r_)
     syn = ctx.syn
     rev = reviewed_reasons()
     for f in syn.fns:
@@ -219,7 +229,15 @@ def r3(ctx, rep):
                           f"error reason `{v}` consists of placeholders only: it can be empty at run time", file=f["file"], line=n["l"], fn=f["path"])
             else:
                 key = f"reason:{f['path']}:{show(arg, maxdepth=4)}"
-                if key in rev:
+                # `x.to_string()` of a library error type (resolved receiver type): Display of serde_json / csv / std parse errors is never empty
+                lib = None
+                if arg.get("k") == "mcall" and arg["m"] == "to_string":
+                    for rr in mir_refs.get((f["file"], arg.get("ml", arg["l"])), []) + mir_refs.get((f["file"], arg["l"]), []):
+                        if (rr.get("def") or "").endswith("to_string") and any(t in (rr.get("recv") or "") for t in LIB_ERRORS):
+                            lib = rr["recv"]
+                if lib:
+                    rep.ok(f"reason:{f['path']}:<Display of {lib.lstrip('&')}>", {"library-error": lib})
+                elif key in rev:
                     rep.ok(key, {"reviewed": rev[key]["reason"]})
                 else:
                     rep.bad(key, f"the error reason is the run-time value `{show(arg, maxdepth=4)}`, which is not known to be non-empty (not reviewed)", file=f["file"], line=n["l"], fn=f["path"])
